@@ -92,6 +92,8 @@ int parse_instruction_lc3(AsmContext *asm_context, char *instr)
         nzp = 0;
         break;
       }
+
+      n++;
     }
 
     if (nzp != 0) { instr_case[2] = 0; }
